@@ -344,6 +344,15 @@ Theorem C03_untyped_in_every_typed_group_refuted :
 Proof. exact every_refuted_l. Qed.
 Print Assumptions C03_untyped_in_every_typed_group_refuted.
 
+(* ... and it differs from the code ONLY inside the ambiguity domain of C15 (some untyped feature is compatible with typed
+   features of two different types; Spec/GroupingSpec.v kf_ambiguous): everywhere else the `break` is a no-op.  So requests
+   with >= 2 declared types next to an untyped feature in one group are exactly where this part of the model is exercised *)
+Require Import MV.Spec.GroupingSpec.
+Theorem C03_variant_differs_only_in_ambiguity_domain : forall its,
+  kf_ambiguous its = false -> group_items_every its = group_items its.
+Proof. exact every_same_outside_l. Qed.
+Print Assumptions C03_variant_differs_only_in_ambiguity_domain.
+
 (* non-vacuity: two (options, frameworks) classes, three declared types, untyped features with and without a compatible typed
    group, a dependency (4) that is not requested *)
 Example C03_step_tables_example :
